@@ -252,6 +252,10 @@ def gen_cases(rng, tier):
         cases.append({"kind": "hist", "batches": [1, 3, 1000],
                       "ops": [["w", _gen_rec(r, ok)], ["w", _gen_rec(r, ok)], ["w", _gen_rec(r, [nm, [["string", "x"]]])],
                               ["w", _gen_rec(r, ok)], ["c"]]})
+    # a batch size far above any internal limit: nothing of the batch may be visible before it is complete
+    cases.append({"kind": "bigbatch", "n": 10050, "batch": 25000})
+    if tier == "thorough":
+        cases.append({"kind": "bigbatch", "n": 70000, "batch": 100000})
     r = rng.fork("quote")
     for _ in range(max(10, n // 4)):
         cases.append({"kind": "quote", "table": _name(r) if r.chance(85) else r.choice(SQL_TYPE_WORDS),
@@ -437,9 +441,48 @@ def run_real(case):
     if case["kind"] == "quote":
         from flow.record.adapter.sqlite import prepare_insert_sql
         return {"sql": prepare_insert_sql(case["table"], tuple(case["fields"]))}
+    if case["kind"] == "bigbatch":
+        return _run_bigbatch(case)
     d = tempfile.mkdtemp(prefix="frv-c18-")
     try:
         return {"runs": [_run_hist(case, b, d) for b in case["batches"]]}
+    finally:
+        shutil.rmtree(d, ignore_errors=True)
+
+
+def _run_bigbatch(case):
+    """n records of one type with a batch size larger than n: a second connection counts the rows at a few points"""
+    from flow.record import RecordDescriptor
+    from flow.record.adapter.sqlite import SqliteWriter
+    desc = RecordDescriptor("big/batch", [("string", "s"), ("varint", "n")])
+    gen = _dtm.datetime(2020, 1, 1, tzinfo=_dtm.timezone.utc)
+    d = tempfile.mkdtemp(prefix="frv-c18-")
+    try:
+        path = os.path.join(d, "big.db")
+        w = SqliteWriter(path, batch_size=case["batch"])
+        con2 = sqlite3.connect(path)
+        n = case["n"]
+        points = {1, 2, 999, 1000, 1001, 9999, 10000, 10001, n // 2, n - 1, n}
+        seen = []
+
+        def rows():
+            try:
+                return con2.execute('SELECT COUNT(*) FROM "big/batch"').fetchone()[0]
+            except sqlite3.OperationalError as e:
+                return "error: " + str(e)[:60]
+        try:
+            for i in range(1, n + 1):
+                w.write(desc(s="x", n=i, _generated=gen))
+                if i in points:
+                    seen.append([i, rows()])
+            w.close()
+            final = rows()
+        finally:
+            con2.close()
+            if w.con is not None:
+                w.con.close()
+                w.con = None
+        return {"seen": seen, "final": final}
     finally:
         shutil.rmtree(d, ignore_errors=True)
 
@@ -682,6 +725,16 @@ def _skipped(obs):
 
 
 def oracle(case, obs):
+    if case["kind"] == "bigbatch":
+        for i, rows in obs["seen"]:
+            if isinstance(rows, str) and "locked" in rows:
+                continue          # SQLite spilled its page cache under an exclusive lock: nothing can be observed (nor seen)
+            if rows != 0:
+                return (f"batch_size={case['batch']}: after write #{i} another connection sees {rows} rows - part of a "
+                        f"batch that is not complete")
+        if obs["final"] != case["n"]:
+            return f"batch_size={case['batch']}: {case['n']} records written, {obs['final']} rows after close"
+        return None
     if _skipped(obs):
         return None   # the record layer refused to build a record of the case: not a history of the writer
     if case["kind"] == "quote":
@@ -713,6 +766,8 @@ def oracle(case, obs):
 # ------------------------------------------------------------------ model
 
 def model_op(case, obs):
+    if case["kind"] == "bigbatch":
+        return None      # 10^4 calls: real-code oracle only (C18_atomic / C18_visible_is_prefix hold for every batch size)
     if _skipped(obs):
         return None
     if case["kind"] == "quote":
@@ -775,6 +830,8 @@ def compare(case, obs, m):
 
 
 def nontrivial(case, obs):
+    if case["kind"] == "bigbatch":
+        return True
     if _skipped(obs):
         return False
     if case["kind"] == "quote":
@@ -787,6 +844,8 @@ def nontrivial(case, obs):
 
 
 def classify(case, obs):
+    if case["kind"] == "bigbatch":
+        return "bigbatch"
     if _skipped(obs):
         return "skipped:record-not-buildable"
     if case["kind"] == "quote":
